@@ -498,6 +498,7 @@ func (a *Activation) memcpy(st *State, sort string, dst, doff, src, soff, n Term
 		"(forall ((l Loc)) (! (= (select %s l) (ite (and (= (kind l) 2) (= (elem_arr l) %s) (bvule %s (elem_idx l)) (bvult (bvsub (elem_idx l) %s) %s)) (select %s (elem %s (bvadd %s (bvsub (elem_idx l) %s)))) (select %s l))) :pattern ((select %s l))))",
 		hn.S, dstN.S, doffN.S, doffN.S, nN.S, hold.S, srcN.S, soffN.S, doffN.S, hold.S, hn.S)), hn)
 	st.heaps[sort] = hn
+	g.recordCopy(hn, h, dstN, -1)
 }
 
 func (a *Activation) makeIface(st *State, v Val, t types.Type) Term {
@@ -572,16 +573,22 @@ func (a *Activation) indexAddr(st *State, ins *ssa.IndexAddr) {
 	idx := a.intTo64(a.val(st, ins.Index).T, ins.Index.Type())
 	switch u := ins.X.Type().Underlying().(type) {
 	case *types.Slice:
-		a.boundCheck(st, "idx", bvcmp("bvult", idx, sLen(x.T)), ins.Pos())
+		a.boundCheck(st, "idx", idxOK(idx, sLen(x.T)), ins.Pos())
 		a.set(ins, Val{T: elemLoc(sArr(x.T), bvop("bvadd", sOff(x.T), idx))})
 	case *types.Pointer:
 		arr := u.Elem().Underlying().(*types.Array)
-		a.boundCheck(st, "idx", bvcmp("bvult", idx, bv64(uint64(arr.Len()))), ins.Pos())
+		a.boundCheck(st, "idx", idxOK(idx, bv64(uint64(arr.Len()))), ins.Pos())
 		a.set(ins, Val{T: elemLoc(x.T, idx)})
 	default:
 		g.note("indexaddr on unsupported type")
 		a.set(ins, Val{T: g.fresh("ia", SLoc)})
 	}
+}
+
+// idxOK: 0 <= i < n in signed form (lengths are non-negative ints, so this equals the
+// unsigned test i <u n and matches the signed comparisons of the source code).
+func idxOK(i, n Term) Term {
+	return and(bvcmp("bvsle", bv64(0), i), bvcmp("bvslt", i, n))
 }
 
 func (a *Activation) intTo64(x Term, t types.Type) Term {
@@ -608,10 +615,10 @@ func (a *Activation) index(st *State, ins *ssa.Index) {
 	idx := a.intTo64(a.val(st, ins.Index).T, ins.Index.Type())
 	switch u := ins.X.Type().Underlying().(type) {
 	case *types.Basic: // string
-		a.boundCheck(st, "idx", bvcmp("bvult", idx, sLen(x.T)), ins.Pos())
+		a.boundCheck(st, "idx", idxOK(idx, sLen(x.T)), ins.Pos())
 		a.set(ins, Val{T: sel(g.heap(st, bvSort(8)), elemLoc(sArr(x.T), bvop("bvadd", sOff(x.T), idx)))})
 	case *types.Array:
-		a.boundCheck(st, "idx", bvcmp("bvult", idx, bv64(uint64(u.Len()))), ins.Pos())
+		a.boundCheck(st, "idx", idxOK(idx, bv64(uint64(u.Len()))), ins.Pos())
 		a.set(ins, Val{T: sel(x.T, idx)})
 	default:
 		a.set(ins, a.havocValue(st, ins.Type(), "index"))
@@ -655,9 +662,9 @@ func (a *Activation) slice(st *State, ins *ssa.Slice) {
 	}
 	var ok Term
 	if ins.Max != nil {
-		ok = and(bvcmp("bvule", lo, hi), bvcmp("bvule", hi, mx), bvcmp("bvule", mx, limit))
+		ok = and(bvcmp("bvsle", bv64(0), lo), bvcmp("bvsle", lo, hi), bvcmp("bvsle", hi, mx), bvcmp("bvsle", mx, limit))
 	} else {
-		ok = and(bvcmp("bvule", lo, hi), bvcmp("bvule", hi, limit))
+		ok = and(bvcmp("bvsle", bv64(0), lo), bvcmp("bvsle", lo, hi), bvcmp("bvsle", hi, limit))
 	}
 	a.boundCheck(st, "slice", ok, ins.Pos())
 	newLen := bvop("bvsub", hi, lo)
@@ -674,7 +681,7 @@ func (a *Activation) makeSlice(st *State, ins *ssa.MakeSlice) {
 	ln := a.intTo64(a.val(st, ins.Len).T, ins.Len.Type())
 	cp := a.intTo64(a.val(st, ins.Cap).T, ins.Cap.Type())
 	elemT := ins.Type().Underlying().(*types.Slice).Elem()
-	ok := and(bvcmp("bvsle", bv64(0), ln), bvcmp("bvsle", ln, cp), bvcmp("bvule", cp, bv64(1<<40)))
+	ok := and(bvcmp("bvsle", bv64(0), ln), bvcmp("bvsle", ln, cp), bvcmp("bvule", cp, bv64(1<<46)))
 	a.boundCheck(st, "make", ok, ins.Pos())
 	a.allocCheck(st, cp, ins.Pos())
 	arr := g.newObject(st, "make")
